@@ -291,9 +291,18 @@ impl Node {
                         }
                     }
                     Err(e) => {
-                        if e.to_string().contains("Decode error") {
+                        // Only the transport can end the receiver: a closed or broken stream,
+                        // a read timeout, or a length prefix that breaks framing. A frame that
+                        // was read completely but cannot be understood is skipped.
+                        let transport_failed = matches!(
+                            e,
+                            edp_client::Error::Io(_)
+                                | edp_client::Error::Timeout(_)
+                                | edp_client::Error::MessageTooLarge { .. }
+                        );
+                        if !transport_failed {
                             tracing::warn!(
-                                "Failed to decode message from {} (likely unsupported message type): {}",
+                                "Skipping a message from {} that could not be understood: {}",
                                 remote_node,
                                 e
                             );
